@@ -63,6 +63,7 @@ KEY_FORMS = ("list", "gen", "star", "tuple", "map", "mixed")
 
 
 def _run(steps, backend, limit_s, solver, vs, events, touched, limited):
+    cache = {}          # built operator nodes of this session, shared between constraints (harness/dx.py)
     for st in steps:
         a = st["a"]
         if a == "bool_var":
@@ -89,7 +90,7 @@ def _run(steps, backend, limit_s, solver, vs, events, touched, limited):
         elif a == "ensure":
             ev = {"ev": "ensure", "x": _strip(st["x"]), "status": "ok", "exc": ""}
             try:
-                solver.ensure(DX.build(st["x"], vs))
+                solver.ensure(DX.build(st["x"], vs, cache))
             except Exception as e:  # noqa
                 ev["status"], ev["exc"] = "exc", type(e).__name__
             events.append(ev)
